@@ -117,7 +117,7 @@ func lenLabel(n int) string { return fmt.Sprint(n) }
 
 func main() {
 	rep := kit.NewReport("C13", "exploration",
-		"request direction: header sets with name/value lengths in {1,126,127,128,129} and one pair sized to the 65 499/65 500 record boundary, totals crossing one and two records, x body lengths {0,1,65499,65500,65501,131000,131001} x paths x env entries, received by Go's net/http/fcgi child and compared with an independent derivation; response direction: header block + body {0,1,8192,70000} cut into <=3 stdout records at every combination of 12 cut points x padding {0,7,255} x a stderr record at every position x Status present/absent, plus maximal records (65535 + padding), served by a byte-level responder with its own codec; static-file fallback never used for existing script files in any letter case; distinct_nontrivial = outcome classes")
+		"request direction: header sets with name/value lengths in {1,126,127,128,129} and one pair sized to the 65 499/65 500 record boundary, totals crossing one and two records, x body lengths {0,1,65499,65500,65501,131000,131001}, announced by Content-Length or sent chunked, x paths x env entries, received by Go's net/http/fcgi child and compared with an independent derivation; response direction: header block + body {0,1,8192,70000} cut into <=3 stdout records at every combination of 12 cut points x padding {0,7,255} x a stderr record at every position x Status present/absent, plus maximal records (65535 + padding) and runs of 2..1000 stderr records before, inside and after the header block, served by a byte-level responder with its own codec; static-file fallback never used for existing script files in any letter case; distinct_nontrivial = outcome classes")
 	kit.Init()
 	kit.Log.Off.Store(true)
 	base := kit.TempDir("c13")
@@ -194,90 +194,111 @@ func main() {
 				continue
 			}
 			for pi, pp := range paths {
-				if (hi > 30 || bl > 1) && pi > 1 {
-					continue
-				}
-				body := bytes.Repeat([]byte("0123456789abcdef"), bl/16+1)[:bl]
-				var raw strings.Builder
-				method := "POST"
-				fmt.Fprintf(&raw, "%s %s HTTP/1.1\r\nHost: a.test:8080\r\nContent-Type: application/octet-stream\r\n", method, pp.p)
-				for _, h := range hs {
-					fmt.Fprintf(&raw, "%s: %s\r\n", h.name, h.val)
-				}
-				fmt.Fprintf(&raw, "Content-Length: %d\r\n\r\n", bl)
-				raw.Write(body)
-				lastMu.Lock()
-				last = nil
-				lastMu.Unlock()
-				rec, pv, err := kit.Serve(srv, raw.String())
-				rep.Eval(1)
-				if err != nil {
-					rep.Broken("request: %v", err)
-				}
-				short := fmt.Sprintf("POST %s with %d extra headers (first %s: %d bytes) and a %d-byte body", pp.p, len(hs), hs[0].name, len(hs[0].val), bl)
-				if pv != nil {
-					rep.Violation("C13/request/panic", fmt.Sprint(pv), c13case{short, "", "", ""})
-					continue
-				}
-				lastMu.Lock()
-				got := last
-				lastMu.Unlock()
-				class := fmt.Sprintf("request/hdrs=%s/body=%d", map[bool]string{true: "many", false: "few"}[len(hs) > 3], bl)
-				if got == nil {
-					kind := "responder-got-no-valid-request"
-					if strings.Contains(rec.Body.String(), "STATIC-SOURCE") {
-						kind = "script-source-served-as-static-text"
+				// the body announced by Content-Length, or sent without a length in chunks of 60 000 bytes (framing 1; few header sets)
+				for framing := 0; framing < 2; framing++ {
+					if (hi > 30 || bl > 1) && pi > 1 {
+						continue
 					}
-					rep.Violation("C13/request/"+kind, fmt.Sprintf("status %d, body %.80q", rec.Status, rec.Body.String()), c13case{short, "", "responder receives the request", fmt.Sprintf("status %d", rec.Status)})
-					continue
-				}
-				var diffs []string
-				for _, h := range hs {
-					if g := got.header.Get(h.name); g != h.val {
-						diffs = append(diffs, fmt.Sprintf("header %s: got %d bytes, want %d", h.name, len(g), len(h.val)))
+					if framing == 1 && (hi > 3 || pi > 1) {
+						continue
 					}
-				}
-				if !bytes.Equal(got.body, body) {
-					diffs = append(diffs, fmt.Sprintf("body: got %d bytes, want %d (equal prefix %d)", len(got.body), len(body), commonPrefix(got.body, body)))
-				}
-				if got.method != method {
-					diffs = append(diffs, "method "+got.method)
-				}
-				// (net/http/fcgi consumes SCRIPT_NAME and PATH_INFO; their values are visible through
-				// DOCUMENT_URI, SCRIPT_FILENAME and PATH_TRANSLATED)
-				if got.env["DOCUMENT_URI"] != pp.script {
-					diffs = append(diffs, fmt.Sprintf("DOCUMENT_URI %q want %q", got.env["DOCUMENT_URI"], pp.script))
-				}
-				wantPT := ""
-				if pp.pathInfo != "" {
-					wantPT = filepath.Join(backendRoot, pp.pathInfo)
-				}
-				if got.env["PATH_TRANSLATED"] != wantPT {
-					diffs = append(diffs, fmt.Sprintf("PATH_TRANSLATED %q want %q", got.env["PATH_TRANSLATED"], wantPT))
-				}
-				// (the placeholders are expanded anew for every request: the path differs between requests)
-				if got.env["FOO"] != "bar" || got.env["DYN"] != "a.test:8080-POST-"+strings.SplitN(pp.p, "?", 2)[0] {
-					diffs = append(diffs, fmt.Sprintf("configured env FOO=%q DYN=%q", got.env["FOO"], got.env["DYN"]))
-				}
-				if got.env["SCRIPT_FILENAME"] != filepath.Join(backendRoot, pp.script) || got.env["DOCUMENT_ROOT"] != backendRoot {
-					diffs = append(diffs, fmt.Sprintf("SCRIPT_FILENAME %q", got.env["SCRIPT_FILENAME"]))
-				}
-				if rec.Status != 200 || !strings.HasPrefix(rec.Body.String(), "RESPONDER-OK") {
-					diffs = append(diffs, fmt.Sprintf("client got %d %.40q", rec.Status, rec.Body.String()))
-				}
-				for f, t := range fileTok {
-					if strings.Contains(rec.Body.String(), t) {
-						diffs = append(diffs, "static source of "+f+" returned")
+					body := bytes.Repeat([]byte("0123456789abcdef"), bl/16+1)[:bl]
+					var raw strings.Builder
+					method := "POST"
+					fmt.Fprintf(&raw, "%s %s HTTP/1.1\r\nHost: a.test:8080\r\nContent-Type: application/octet-stream\r\n", method, pp.p)
+					for _, h := range hs {
+						fmt.Fprintf(&raw, "%s: %s\r\n", h.name, h.val)
 					}
-				}
-				if len(diffs) > 0 {
-					kind := "params-or-body-damaged"
-					if strings.Contains(strings.Join(diffs, ";"), "body:") {
-						kind = "body-damaged"
+					if framing == 0 {
+						fmt.Fprintf(&raw, "Content-Length: %d\r\n\r\n", bl)
+						raw.Write(body)
+					} else {
+						raw.WriteString("Transfer-Encoding: chunked\r\n\r\n")
+						for rest := body; len(rest) > 0; {
+							n := len(rest)
+							if n > 60000 {
+								n = 60000
+							}
+							fmt.Fprintf(&raw, "%x\r\n", n)
+							raw.Write(rest[:n])
+							raw.WriteString("\r\n")
+							rest = rest[n:]
+						}
+						raw.WriteString("0\r\n\r\n")
 					}
-					rep.Violation("C13/request/"+kind, strings.Join(diffs, "; "), c13case{short, "", "exact headers, env and body", strings.Join(diffs, "; ")})
+					lastMu.Lock()
+					last = nil
+					lastMu.Unlock()
+					rec, pv, err := kit.Serve(srv, raw.String())
+					rep.Eval(1)
+					if err != nil {
+						rep.Broken("request: %v", err)
+					}
+					short := fmt.Sprintf("POST %s with %d extra headers (first %s: %d bytes) and a %d-byte body%s", pp.p, len(hs), hs[0].name, len(hs[0].val), bl, map[int]string{0: "", 1: " sent chunked"}[framing])
+					if pv != nil {
+						rep.Violation("C13/request/panic", fmt.Sprint(pv), c13case{short, "", "", ""})
+						continue
+					}
+					lastMu.Lock()
+					got := last
+					lastMu.Unlock()
+					class := fmt.Sprintf("request/hdrs=%s/body=%d%s", map[bool]string{true: "many", false: "few"}[len(hs) > 3], bl, map[int]string{0: "", 1: "/chunked"}[framing])
+					if got == nil {
+						kind := "responder-got-no-valid-request"
+						if strings.Contains(rec.Body.String(), "STATIC-SOURCE") {
+							kind = "script-source-served-as-static-text"
+						}
+						rep.Violation("C13/request/"+kind, fmt.Sprintf("status %d, body %.80q", rec.Status, rec.Body.String()), c13case{short, "", "responder receives the request", fmt.Sprintf("status %d", rec.Status)})
+						continue
+					}
+					var diffs []string
+					for _, h := range hs {
+						if g := got.header.Get(h.name); g != h.val {
+							diffs = append(diffs, fmt.Sprintf("header %s: got %d bytes, want %d", h.name, len(g), len(h.val)))
+						}
+					}
+					if !bytes.Equal(got.body, body) {
+						diffs = append(diffs, fmt.Sprintf("body: got %d bytes, want %d (equal prefix %d)", len(got.body), len(body), commonPrefix(got.body, body)))
+					}
+					if got.method != method {
+						diffs = append(diffs, "method "+got.method)
+					}
+					// (net/http/fcgi consumes SCRIPT_NAME and PATH_INFO; their values are visible through
+					// DOCUMENT_URI, SCRIPT_FILENAME and PATH_TRANSLATED)
+					if got.env["DOCUMENT_URI"] != pp.script {
+						diffs = append(diffs, fmt.Sprintf("DOCUMENT_URI %q want %q", got.env["DOCUMENT_URI"], pp.script))
+					}
+					wantPT := ""
+					if pp.pathInfo != "" {
+						wantPT = filepath.Join(backendRoot, pp.pathInfo)
+					}
+					if got.env["PATH_TRANSLATED"] != wantPT {
+						diffs = append(diffs, fmt.Sprintf("PATH_TRANSLATED %q want %q", got.env["PATH_TRANSLATED"], wantPT))
+					}
+					// (the placeholders are expanded anew for every request: the path differs between requests)
+					if got.env["FOO"] != "bar" || got.env["DYN"] != "a.test:8080-POST-"+strings.SplitN(pp.p, "?", 2)[0] {
+						diffs = append(diffs, fmt.Sprintf("configured env FOO=%q DYN=%q", got.env["FOO"], got.env["DYN"]))
+					}
+					if got.env["SCRIPT_FILENAME"] != filepath.Join(backendRoot, pp.script) || got.env["DOCUMENT_ROOT"] != backendRoot {
+						diffs = append(diffs, fmt.Sprintf("SCRIPT_FILENAME %q", got.env["SCRIPT_FILENAME"]))
+					}
+					if rec.Status != 200 || !strings.HasPrefix(rec.Body.String(), "RESPONDER-OK") {
+						diffs = append(diffs, fmt.Sprintf("client got %d %.40q", rec.Status, rec.Body.String()))
+					}
+					for f, t := range fileTok {
+						if strings.Contains(rec.Body.String(), t) {
+							diffs = append(diffs, "static source of "+f+" returned")
+						}
+					}
+					if len(diffs) > 0 {
+						kind := "params-or-body-damaged"
+						if strings.Contains(strings.Join(diffs, ";"), "body:") {
+							kind = "body-damaged"
+						}
+						rep.Violation("C13/request/"+kind, strings.Join(diffs, "; "), c13case{short, "", "exact headers, env and body", strings.Join(diffs, "; ")})
+					}
+					rep.Class(class)
 				}
-				rep.Class(class)
 			}
 		}
 	}
@@ -412,6 +433,25 @@ func main() {
 				n = 65535
 			}
 			runScripted(rep, srv, script, 201, bigBody, false, fmt.Sprintf("big first=%d pad=%d", first, pad))
+		}
+	}
+	// runs of stderr records: N in a row before the first stdout byte, between two halves of the header block, and inside the body
+	{
+		head := "Status: 201 Created\r\nContent-Type: text/x-verif\r\n\r\n"
+		body := []byte("body-after-many-stderr-records")
+		full := append([]byte(head), body...)
+		for _, n := range []int{2, 3, 50, 99, 100, 101, 299, 300, 301, 1000} {
+			for _, where := range []int{0, len(head) / 2, len(head) + 3} {
+				var script []recSpec
+				if where > 0 {
+					script = append(script, recSpec{6, full[:where], 0})
+				}
+				for i := 0; i < n; i++ {
+					script = append(script, recSpec{7, []byte("STDERR-TEXT-ONLY-FOR-THE-LOG"), 0})
+				}
+				script = append(script, recSpec{6, full[where:], 0})
+				runScripted(rep, srv, script, 201, body, true, fmt.Sprintf("stderr-run n=%d after %d stdout bytes", n, where))
+			}
 		}
 	}
 	rep.Sample(map[string]interface{}{"direction": "response", "example": "header block + 8192-byte body cut after 'Status: 2' and one byte before the blank line, padding 255, stderr record between the two stdout records"})
